@@ -742,7 +742,7 @@ def rule_h(ctx, ix):
 def rule_i(ctx, ix):
     """The two sides of a saved key join are restored independently of each other (they have different lengths for 1-n joins)."""
     R = 'C02.i'
-    ctx.describe(R, 'key joins: each side is restored from its own saved side, the sides are never zipped together', floor=3)
+    ctx.describe(R, 'key joins: each side is restored from its own saved side, the sides are never zipped together', floor=1)
     mod = ix.module('glue.core.state')
     n = 0
     for q, f in sorted(ix.functions.items()):
@@ -799,7 +799,7 @@ def rule_i(ctx, ix):
                        detail='%s combines the two saved sides of a key join (`%s`): the sides have different lengths for 1-n / n-1 joins, '
                               'so zipping them drops identifiers (or the sides are swapped), and the restored join no longer selects the '
                               'same rows' % (f.construct, unparse(mixed[0])[:100] if mixed else ''), where=where(f, owner))
-    if n < 3:
+    if n < 1:
         raise AnalysisError('C02.i: only %d key-join loaders recognised' % n)
 
 
